@@ -312,6 +312,22 @@ def run(tier):
           (W[2], ('m', '100')), (W[2], ('f', 'PV')), (W[2], ('f', 'PV'), dict(year=2015)), (W[2], ('m', 'MAR')),
           (W[3], ('M', 50, '100')), (W[3], ('F', 60, 'HJ')), (W[3], ('M', 34, '100')), (W[4], ('f', 60, 'HJ', 1.4)), (W[4], ('m', 45, '1500', 280.0))]
     orderpass.part(rep, oc, 'age-grading call-order pass')
+    # calls whose arguments, written one after the other, give the same text: age a on event d+E and age 'ad' on event E ('m', 5, '1500') / ('m', 51, '500')
+    # - a memo keyed on the concatenation cannot tell them apart.  All such pairs of tabulated events, every age that has a partner inside the table
+    amb = []
+    for y in (2015, 2023):
+        evs = [r[0] for r in G['tab'][y]['m']]
+        for e1 in evs:
+            for e2 in evs:
+                if e1 != e2 and e1.endswith(e2) and e1[:len(e1) - len(e2)].isdigit():
+                    d = e1[:len(e1) - len(e2)]
+                    for a in range(5, 12):
+                        a2 = int(str(a) + d)
+                        if a2 <= 110:
+                            for g in ('m', 'f'):
+                                amb.append([(W[1], (g, a, e1, 100.0), dict(year=y)), (W[1], (g, a2, e2, 100.0), dict(year=y))])
+                                amb.append([(W[0], (g, a, e1), dict(year=y)), (W[0], (g, a2, e2), dict(year=y))])
+    orderpass.part_groups(rep, amb, 'argument texts that run together')
     crossapi.part(rep, PID, tier)
     return rep.finish()
 
